@@ -17,15 +17,39 @@ loose, see no_starvation); every whenDone/coiterate Deferred fires exactly once
 and with the right result, and never before the task is finished; pause()/
 stop() on finished tasks raise the matching exception, the same one each time.
 
+Re-entrant family (knob `reentrant`, 6 of 10 runs): up to 6 of the whenDone/
+coiterate Deferreds per run carry an application callback that, when the
+Deferred fires, calls back into the Cooperator (1..2 tape-chosen operations:
+add a follow-up task with cooperate()/coiterate(), resume a paused task,
+fire/fail a Deferred another task waits on, pause/stop another task, whenDone,
+an operation on a finished task - also the one completing right now -, or
+Cooperator.stop()).  Such a callback runs wherever the real code completes a
+task: inside a scheduler tick, inside task.stop(), inside the firing of a
+yielded Deferred, inside resume() on a stopped Cooperator, and inside
+Cooperator.stop() itself while it is still working through its tasks.  The
+model is always updated before the real call, so the nested operation is
+judged by the same clauses as at top level: e.g. a task that enters (or
+re-enters) the Cooperator while it stops is finished with SchedulerStopped
+and its Deferreds must have fired once by the time the outer operation
+returns; a task paused from a callback inside a tick is not advanced later
+in that tick.  While Cooperator.stop() is on the stack the tasks it has not
+reached yet are `pending`: pause() on them may succeed or raise a
+SchedulerError (statement silent), they still complete exactly once.
+
 Two predicted defects of the unchanged tree have dedicated clauses with their
 own signatures (see KNOWN below); the config knob `avoid_known` (3 of 4
 runs) keeps their preconditions from arising so that every other clause is
-exercised on full-length runs.
+exercised on full-length runs.  A third one, found by the re-entrant family
+(a callback completes a pending task itself: stop(), or pause()+resume()),
+has the clause coop-stop-reentrant and the knob `stop_pending` (1 of 4 runs),
+see KNOWN_REENTRANT.  All three are fixed in /repo.
 """
 import os
 
 from twisted.internet import defer, task
 from twisted.python.failure import Failure
+
+from detsim.sim import StepLimit, Violation
 
 ID = "C11"
 ENGINE = "clock"
@@ -41,9 +65,16 @@ COMPONENTS = {"real": ["twisted.internet.task.Cooperator", "twisted.internet.tas
               "stub": ["scheduler (tape decides when the pending tick runs)", "termination predicate (work-unit count)"]}
 RULE = ("run = up to 8 scripted iterators on one Cooperator (units per tick 1..5, started or not), 10..70 tape-chosen operations "
         "(tick, add task, pause, balanced resume, unpaused resume, stop, whenDone, operation on a finished task, fire/fail a yielded Deferred, "
-        "Cooperator.stop/start); iterator behaviour drawn at each next(); non-trivial = at least 2 tasks, 3 ticks and one of "
-        "(pause+resume, a yielded Deferred fired, a task stopped, Cooperator.stop)")
-ASSUMPTIONS = ["operations are issued between ticks, not from inside next() or from whenDone callbacks",
+        "Cooperator.stop/start); iterator behaviour drawn at each next(); in 6 of 10 runs up to 6 completion Deferreds carry a callback that "
+        "re-enters the Cooperator with 1..2 operations (add, resume, fire/fail, pause, stop, whenDone, operation on a finished task, "
+        "Cooperator.stop, pause - and with knob stop_pending (1 of 4 runs) stop or pause+resume - of a task a Cooperator.stop() in progress "
+        "has not reached yet) from wherever the task completes "
+        "(tick, task.stop(), Deferred firing, resume() on a stopped Cooperator, Cooperator.stop()); non-trivial = at least 2 tasks, 3 ticks "
+        "and one of (pause+resume, a yielded Deferred fired, a task stopped, Cooperator.stop)")
+ASSUMPTIONS = ["operations are issued between ticks or from inside whenDone/coiterate callbacks (wherever those fire), not from inside next(); "
+               "scheduler ticks and Cooperator.start() are never issued from inside a callback (start() from inside a running stop() is outside the statement)",
+               "a task that was running when Cooperator.stop() began and that stop() has not completed yet may accept pause() or reject it with a "
+               "SchedulerError; if a callback stop()s it first, TaskStopped and SchedulerStopped are both accepted as its stop reason (knob stop_pending only)",
                "resume() is only issued to balance an earlier user pause(), or on an unpaused task (must raise NotPaused)",
                "resume() on finished tasks is not judged (undocumented); tasks finished by Cooperator.stop() may raise SchedulerStopped "
                "(not a TaskFinished subtype) from pause()/stop()",
@@ -53,6 +84,14 @@ ASSUMPTIONS = ["operations are issued between ticks, not from inside next() or f
 KNOWN = ["C11:coop-stop-completes-all:skipped", "C11:stopped-state-stable:late-deferred-failure"]
 
 MAX_TASKS = 8
+
+# Genuine defect found by the re-entrant family (since fixed in /repo: "Cooperator.stop() skips tasks that a callback completed
+# while it was completing the others"): a completion callback fired by Cooperator.stop() that completes a task stop() has not
+# reached yet (otherTask.stop(), or pause()+resume() of it) made stop() complete that task a second time -> ValueError /
+# AlreadyCalledError out of Cooperator.stop(), the remaining tasks never completed.  Its precondition arises only in runs that
+# draw the `stop_pending` knob (share of such runs below; VERIF_C11_STOP_PENDING=1 forces it, VERIF_C11_AVOID_KNOWN=1 suppresses it):
+STOP_PENDING_P = 0.25
+KNOWN_REENTRANT = ["C11:coop-stop-reentrant:task-completed-by-callback:*"]
 
 
 class ScriptError(Exception):
@@ -104,14 +143,25 @@ def run(sim):
     ntasks0 = sim.draw_int(1, 5, "ntasks0")
     nops = sim.draw_int(10, 70 * sim.depth, "nops")
     avoid = sim.draw_bool(0.15, "avoid_known") or bool(os.environ.get("VERIF_C11_AVOID_KNOWN"))
-    sim.config = {"units": units, "started": started, "ntasks0": ntasks0, "nops": nops, "avoid_known": avoid}
+    # re-entrant family: completion callbacks (whenDone / coiterate Deferreds) that call back into the Cooperator and its tasks
+    reent = sim.draw_bool(0.6, "reentrant")
+    # operations that complete, from such a callback, a task which the running Cooperator.stop() has not reached yet (see KNOWN_REENTRANT)
+    stop_pending = (sim.draw_bool(STOP_PENDING_P, "stop_pending") and STOP_PENDING_P > 0) or bool(os.environ.get("VERIF_C11_STOP_PENDING"))
+    if os.environ.get("VERIF_C11_AVOID_KNOWN") and not os.environ.get("VERIF_C11_STOP_PENDING"):
+        stop_pending = False
+    sim.config = {"units": units, "started": started, "ntasks0": ntasks0, "nops": nops, "avoid_known": avoid,
+                  "reentrant": reent, "stop_pending": stop_pending}
 
     ticks = []
     coop_m = {"started": started, "stopped": False}
     tasks = []
     outstanding = {}   # did -> (Deferred, MT)
     chained = {}       # did -> the called-but-pending Deferred that was actually yielded (waits on outstanding[did][0])
-    st = {"did": 0, "ticks": 0, "pr": 0, "fired": 0, "stopped": 0, "coopstop": 0, "in_tick": False, "finops": 0}
+    st = {"did": 0, "ticks": 0, "pr": 0, "fired": 0, "stopped": 0, "coopstop": 0, "in_tick": False, "finops": 0,
+          "armed": 0, "reacted": 0, "harness_exc": None, "pending_completed": False}
+    ctx = []           # which operation of the application is on the stack (innermost last): tick, task_stop, fire, resume, coop_stop
+    pending = set()    # tids of the tasks that were running when the Cooperator.stop() now on the stack began and that it has not completed yet
+    pend_paused = []   # such tasks that a callback paused in the meantime
 
     def scheduler(fn):
         t = Tick(fn)
@@ -216,11 +266,84 @@ def run(sim):
     def watch(mt, d):
         lst = []
         mt.watchers.append(lst)
+        # armed: when this completion Deferred fires, the application calls back into the Cooperator from inside the callback
+        armed = bool(reent and mt.finished is None and st["armed"] < 6 and sim.draw_bool(0.4, "react"))
+        if armed:
+            st["armed"] += 1
 
         def rec(res):
             lst.append(res)
+            pending.discard(mt.tid)
+            if armed and len(lst) == 1 and sim.violation is None and st["harness_exc"] is None:
+                try:
+                    react(mt)
+                except (Violation, StepLimit):
+                    raise
+                except BaseException as e:   # the Deferred would swallow it: keep it for the top level (harness error)
+                    st["harness_exc"] = e
             return None
         d.addBoth(rec)
+
+    def react(src):
+        """Inside a completion callback of task `src`: 1..2 tape-chosen operations on the Cooperator and its tasks.  The model
+        was brought up to date before the real call that is now firing the callback, so every operation is judged exactly as
+        at top level; the only extra state is `pending` (tasks a Cooperator.stop() in progress has yet to complete)."""
+        where = ctx[-1] if ctx else "attach"
+        sim.probe("callback_reenters_during_" + where)
+        for _ in range(sim.draw_int(1, 2, "nreact")):
+            if sim.violation is not None:
+                return
+            handles = [mt for mt in tasks if mt.task is not None]
+            unfinished = [mt for mt in handles if mt.finished is None]
+            resumable = [mt for mt in unfinished if mt.user_pauses > 0]
+            finished = [mt for mt in handles if mt.finished is not None and mt.tid not in pending]
+            pend = [mt for mt in handles if mt.tid in pending]
+            pres = [mt for mt in pend_paused if mt.tid in pending]
+            nrun = len(runnables())
+            can_coop_stop = (not coop_m["stopped"]) and st["coopstop"] < 3 and (nrun <= 1 if avoid else True)
+            ops = [("none", 1),
+                   ("add", 5 if len(tasks) < MAX_TASKS else 0),
+                   ("resume", 5 if resumable else 0),
+                   ("fire", 5 if outstanding else 0),
+                   ("pause", 2 if unfinished else 0),
+                   ("stop", 2 if unfinished else 0),
+                   ("whenDone", 1 if handles else 0),
+                   ("finished-op", 2 if finished else 0),
+                   ("coop-stop", 2 if can_coop_stop else 0),
+                   ("pause-pending", 2 if pend else 0),
+                   ("stop-pending", 3 if (pend and stop_pending) else 0),
+                   ("resume-pending", 3 if (pres and stop_pending) else 0)]
+            op = sim.draw_weighted(ops, "react_op")
+            sim.event("react", src.tid, where, op)
+            if op == "none":
+                continue
+            st["reacted"] += 1
+            sim.fault("reentrant_op")
+            sim.probe("reentrant_" + op)
+            if where == "coop_stop" and op in ("add", "resume", "fire"):
+                sim.probe("task_enters_cooperator_while_it_stops")
+            if op == "add":
+                add_task()
+            elif op == "resume":
+                op_resume(sim.draw_choice(resumable, "which"))
+            elif op == "fire":
+                op_fire(sim.draw_choice(sorted(outstanding), "which"))
+            elif op == "pause":
+                op_pause(sim.draw_choice(unfinished, "which"))
+            elif op == "stop":
+                op_stop(sim.draw_choice(unfinished, "which"))
+            elif op == "whenDone":
+                op_whendone(sim.draw_choice(handles, "which"))
+            elif op == "finished-op":
+                op_finished(sim.draw_choice(finished, "which"))
+            elif op == "coop-stop":
+                op_coop_stop()
+            elif op == "pause-pending":
+                op_pending(sim.draw_choice(pend, "which"), "pause")
+            elif op == "stop-pending":
+                op_pending(sim.draw_choice(pend, "which"), "stop")
+            else:
+                op_pending(sim.draw_choice(pres, "which"), "resume")
 
     def matches(res, expect):
         if expect[0] == "iter":
@@ -229,6 +352,8 @@ def run(sim):
             return False
         if expect[0] == "exc":
             return res.value is expect[1]
+        if expect[0] == "types":
+            return type(res.value) in expect[1]
         return type(res.value) is expect[1]
 
     def show(res):
@@ -239,6 +364,8 @@ def run(sim):
     def audit():
         if sim.violation is not None:
             raise sim.violation
+        if st["harness_exc"] is not None:
+            raise st["harness_exc"]
         for mt in tasks:
             for w in mt.watchers:
                 sim.check("whenDone-at-most-once", len(w) <= 1, "watcher", lambda: "task %d Deferred fired %d times" % (mt.tid, len(w)))
@@ -298,10 +425,12 @@ def run(sim):
         sim.event("tick")
         before = [mt for mt in tasks if mt.win is not None]
         st["in_tick"] = True
+        ctx.append("tick")
         try:
             with sim.guard("no-raise", "tick"):
                 t.fn()
         finally:
+            ctx.pop()
             st["in_tick"] = False
         if sim.violation is not None:
             raise sim.violation
@@ -329,8 +458,12 @@ def run(sim):
         mt.user_pauses -= 1
         if mt.runnable():
             enter(mt)
-        with sim.guard("no-raise", "resume"):
-            mt.task.resume()
+        ctx.append("resume")
+        try:
+            with sim.guard("no-raise", "resume"):
+                mt.task.resume()
+        finally:
+            ctx.pop()
 
     def op_resume_unpaused(mt):
         sim.event("resume-unpaused", mt.tid)
@@ -348,8 +481,12 @@ def run(sim):
         if mt.waiting is not None:
             sim.probe("stop_while_waiting")
         finish(mt, "stopped", ("type", task.TaskStopped))
-        with sim.guard("no-raise", "stop"):
-            mt.task.stop()
+        ctx.append("task_stop")
+        try:
+            with sim.guard("no-raise", "stop"):
+                mt.task.stop()
+        finally:
+            ctx.pop()
 
     def op_finished(mt):
         which = sim.draw_choice(["stop", "pause"], "which")
@@ -392,11 +529,15 @@ def run(sim):
                 finish_nonrunnable(mt, "failed", ("exc", exc))
         elif mt.runnable():
             enter(mt)
-        with sim.guard("no-raise", "fire"):
-            if fail:
-                d.errback(exc)
-            else:
-                d.callback(None)
+        ctx.append("fire")
+        try:
+            with sim.guard("no-raise", "fire"):
+                if fail:
+                    d.errback(exc)
+                else:
+                    d.callback(None)
+        finally:
+            ctx.pop()
         leftover = []
         chained.pop(did, d).addErrback(lambda f: leftover.append(f) and None)
         if late and fail:
@@ -422,12 +563,64 @@ def run(sim):
             mt.finished = "sched"
             mt.expect = ("type", task.SchedulerStopped)
             mt.win = None
-        with sim.guard("no-raise", "cooperator.stop"):
+        # tasks of `r` are finished for the model from here on, but the real Cooperator reaches them one by one: a completion
+        # callback that runs in between sees the later ones as `pending`
+        outer = (set(pending), list(pend_paused), st["pending_completed"])
+        pending.clear()
+        pending.update(mt.tid for mt in r)
+        del pend_paused[:]
+        st["pending_completed"] = False
+        ctx.append("coop_stop")
+        try:
             coop.stop()
+        except Violation:
+            raise
+        except Exception as e:
+            if st["pending_completed"]:
+                sim.fail("coop-stop-reentrant", "task-completed-by-callback:" + type(e).__name__,
+                         "Cooperator.stop() raised %s: %s after a completion callback it fired had completed a task that stop() had not reached yet"
+                         % (type(e).__name__, str(e)[:120]))
+            sim.fail("no-raise", "cooperator.stop:" + type(e).__name__, "%s: %s" % (type(e).__name__, str(e)[:200]))
+        finally:
+            ctx.pop()
+            pending.clear()
+            pending.update(outer[0])
+            pend_paused[:] = outer[1]
+        by_callback, st["pending_completed"] = st["pending_completed"], outer[2]
+        if by_callback:
+            fired0 = [mt for mt in r if all(len(w) == 1 for w in mt.watchers)]
+            sim.check("coop-stop-reentrant", len(fired0) == len(r), "task-completed-by-callback:skipped",
+                      lambda: "Cooperator.stop() with %d running tasks, one of which a completion callback completed first: tasks %r never complete"
+                      % (len(r), [mt.tid for mt in r if mt not in fired0]))
         fired = [mt for mt in r if all(len(w) == 1 for w in mt.watchers)]
         sim.check("coop-stop-completes-all", len(fired) == len(r), "skipped",
                   lambda: "Cooperator.stop() with %d running tasks completed only tasks %r; tasks %r never complete"
                   % (len(r), [mt.tid for mt in fired], [mt.tid for mt in r if mt not in fired]))
+
+    def op_pending(mt, which):
+        """pause()/stop()/resume() of a task that was running when the Cooperator.stop() on the stack began and that stop() has
+        not completed yet.  The statement does not say whether such a task counts as finished already: the call may succeed or
+        raise a SchedulerError, and the task's Deferreds still fire exactly once with the stop reason (SchedulerStopped, or
+        TaskStopped if the callback's stop() got there first)."""
+        sim.event("op-on-pending", mt.tid, which)
+        if which == "stop":
+            mt.expect = ("types", (task.SchedulerStopped, task.TaskStopped))
+        if which in ("stop", "resume"):
+            st["pending_completed"] = True
+            sim.fault("pending_task_completed_by_callback")
+        got = None
+        try:
+            getattr(mt.task, which)()
+        except Violation:
+            raise
+        except Exception as e:
+            got = type(e)
+        if which == "pause" and got is None:
+            pend_paused.append(mt)
+        elif which == "resume":
+            pend_paused.remove(mt)
+        sim.check("pending-op", got is None or issubclass(got, task.SchedulerError), which,
+                  "%s() on a task the Cooperator.stop() in progress has not completed yet raised %r" % (which, got))
 
     def op_coop_start():
         sim.event("cooperator.start")
@@ -492,6 +685,10 @@ def run(sim):
 
 
 MUTANTS = [
+    "re-entrant family: task.py Cooperator.stop: 'self._stopped = True' moved behind the loop (a task entering from a completion callback while stop() runs is accepted and then dropped): CAUGHT whenDone-fires:sched / finished-op-raises:sched / advance-only-runnable:finished (run 21)",
+    "re-entrant family: task.py _completeWith fires the Deferreds before removing the task from the Cooperator: CAUGHT no-raise:cooperator.stop:AlreadyCalledError / no-raise:stop:ValueError (run 17)",
+    "re-entrant family: task.py Cooperator.stop: guard 'if taskObj._completionState is not None: continue' removed (the tree before the fix, see KNOWN_REENTRANT): "
+    "CAUGHT coop-stop-reentrant:task-completed-by-callback:ValueError / :AlreadyCalledError; with the guard the quick tier passes with the knob forced on",
     '(all run with VERIF_C11_AVOID_KNOWN=1 so that the two known defects do not end the runs first)',
     "task.py _oneWorkUnit: 'self.pause()' before addCallbacks removed (task not paused while waiting on its Deferred): CAUGHT advance-only-runnable:waiting-on-deferred",
     'task.py _tasksWhileNotStopped: _metarator re-created every tick (only the first task advances with 1 unit/tick): CAUGHT no-starvation (after ~2000 runs)',
